@@ -113,6 +113,36 @@ pub fn select_best_quality_idx(conns: &[crate::connection::SrtlaConnection]) -> 
     best_idx
 }
 
+/// [`select_best_quality_idx`] restricted to the links the scheduler itself may
+/// route to at `now_ms`: a link that has timed out (silent past its connection
+/// timeout but not yet torn down by housekeeping) or that is currently
+/// stall-gated must not receive must-land traffic either. `None` if no such
+/// link exists (caller keeps the scheduler's choice).
+pub fn select_best_quality_eligible_idx(
+    conns: &[crate::connection::SrtlaConnection],
+    now_ms: u64,
+) -> Option<usize> {
+    let mut best_idx = None;
+    let mut best_quality = f64::NEG_INFINITY;
+
+    for (i, conn) in conns.iter().enumerate() {
+        if !conn.connected
+            || !conn.is_schedulable()
+            || conn.is_timed_out(now_ms)
+            || conn.is_stall_gated()
+        {
+            continue;
+        }
+        let q = conn.quality_cache.multiplier;
+        if q > best_quality {
+            best_quality = q;
+            best_idx = Some(i);
+        }
+    }
+
+    best_idx
+}
+
 #[cfg(test)]
 mod tests {
     use super::*;
